@@ -562,6 +562,11 @@ impl Model {
                 // the callbacks), and only once
                 self.dir_is_real_dir(*layer) && self.snap.contains(&self.ltoml(*layer))
             }
+            Op::SbomLink { layer, format, .. } => {
+                *format < 3
+                    && self.dir_is_real_dir(*layer)
+                    && !self.snap.get(&self.lsbom(*layer, *format)).is_some_and(Node::is_dir)
+            }
             Op::Restore { .. } => true,
         }
     }
@@ -783,6 +788,17 @@ impl Model {
                 self.snap.insert(l, Node::Symlink { target: t });
                 self.live.remove(layer);
                 self.refs.remove(layer);
+                Expectation::simple(ExpResult::NoCall)
+            }
+            Op::SbomLink { layer, format, kind } => {
+                let path = self.lsbom(*layer, *format);
+                let target = match kind {
+                    0 => b"gone/nowhere.json".to_vec(),
+                    1 => path.rsplit(|c| *c == b'/').next().unwrap_or(&path).to_vec(),
+                    2 => self.abs(&p("outside/canary/file_a")),
+                    _ => self.link_target_bytes(&path, &LinkTarget::Rel(p("outside/canary"))),
+                };
+                self.snap.insert(path, Node::Symlink { target });
                 Expectation::simple(ExpResult::NoCall)
             }
             Op::Restore { kind } => {
